@@ -5,6 +5,8 @@ CONSTANTS
   Ops = {"XOR", "XNOR", "AND", "OR", "INV"}
   FreeS = FALSE
   MaxFaults = 0
+  Deviating = FALSE
+  RangeRule = "exact"
 INVARIANT TwoPartyOK
 INVARIANT Secrecy
 PROPERTY Completes
